@@ -1004,10 +1004,8 @@ func (f *SQLFormatter) formatExpression(expr ast.Expression) error {
 	}
 	switch e := expr.(type) {
 	case *ast.Identifier:
-		if e.Table != "" {
-			f.builder.WriteString(e.Table + ".")
-		}
-		f.builder.WriteString(e.Name)
+		// Quote what needs quoting exactly as the AST serialiser does ("a b" is one name, not a b)
+		f.builder.WriteString(e.SQL())
 	case *ast.LiteralValue:
 		// Handle string literals with proper quoting
 		switch e.Type {
